@@ -378,6 +378,9 @@ class ChoiceList(BaseColumnType):
       return value
     else:
       # Accepts other kinds of iterables; if that doesn't work, fail the conversion too.
+      if isinstance(value, (set, frozenset)):
+        # The iteration order of a set of strings differs from one process to the next.
+        return tuple(sorted(str(item) for item in value))
       return tuple(str(item) for item in value)
 
   @classmethod
